@@ -53,4 +53,6 @@ def clauses():
                     "oracle per accepted step: x0 = (1-sum f) x_matrix + sum_p ratio_p F_p sum_i n_i R_i^3 x_beta; non-trivial: total precipitate fraction > 1e-6 on >= 10 steps"),
         Clause("toy_multi", lambda: scen.toy_multi_scenario(cap=250), check_toy_binary, quick=120, thorough=2000, shrink=False,
                rule="generator: toy ternary scenarios (1-2 stoichiometric phases with a solubility product, both solutes balanced); same oracle for every solute; non-trivial as above"),
+        Clause("real_db", lambda: scen.real_scenario(cap=100), check_toy_binary, quick=24, thorough=300, shrink=False,
+               rule="generator: Al-Zr / Al3Zr (binary, stoichiometric, bulk / dislocation / grain-boundary sites) and Ni-Al-Cr gamma prime (ternary, non-stoichiometric, optional constant strain energy) on the shipped databases, constant temperature or a cooling ramp, both iterators, 1-2 solve calls, cap 100 steps; same oracle (for gamma prime the per-class precipitate composition is the model's table snapshot)"),
     ]
